@@ -8,10 +8,10 @@ property count.  Direct monitor of the property on the same kind of runs (harnes
 from .. import refine, runs
 
 MODULE = "PyhmsVerif.Props.C11"
-THEOREMS = []
-LEVEL = "exploration"
-LEVEL_TEXT = "Trace refinement against the Lean tree model plus the property's direct monitor on sampled real runs; theorems for this property not yet registered."
-LEVEL_NOTE = "Sampled runs only; model, tracer and monitors trusted."
+THEOREMS = ['C11.C11_chain', 'C11.step_chain', 'C11.gen_chain', 'C11.local_chain', 'C11.chainOk_pair', 'C11.genOk_member']
+LEVEL = 'proof'
+LEVEL_TEXT = 'Theorem C11_chain: in every reachable state, for every deme and every consecutive pair of generations (G, G-prime) of its flattened history — also inside a metaepoch of several generations — each individual of G-prime belonged to G (same genome and fitness) or was evaluated while G-prime was being made (or carries the sentinel of a refused request). Inductive over all event sequences; the pending generations of the metaepoch in progress are part of the invariant. Tie: trace refinement re-checks genOk on every real generation with the parents the model threaded (finding D2 is rejected at the first non-chaining generation) + direct monitor joining histories with the time-stamped call log.'
+LEVEL_NOTE = 'Trusted: Lean kernel + standard axioms; the hand-written tree model is tied to the code by trace refinement on sampled runs (the model refuses a generation that does not chain, a stored individual that was never evaluated, an iterate scipy never evaluated); numerical engines and objective values are environment; monitors trusted as failing-input search. The ghost list evald (requests issued while a generation was made) is part of the model state; the tracer attributes objective calls to generations by the GSC consults between them.'
 TECHNIQUE = "trace refinement against the Lean tree model (Tree.step re-executes real runs) + direct monitors"
 RULE = "case = one traced run of a random configuration (1-3 levels, engine per level from the full list, every shipped GSC/LSC kind plus user-defined ones, both stock sprout mechanisms and user-composed chains, hibernation on/off, both directions, decimal boxes, optional cutoff/precision/stats wrappers, shared or per-level problems); non-trivial = run with >= 2 demes and >= 2 metaepochs; distinct by configuration hash"
 ASSUMPTIONS = ["objective is deterministic and never returns NaN", "runs are capped at 12 metaepochs by a user-level composite stop condition"]
